@@ -11,7 +11,7 @@ EXPLANATION = (
     "the value returned by headers.remove(CLIENT_ID_HEADER), forwards the incoming message bytes with the remaining headers (None iff empty), and "
     "missing / unparsable / unknown tags return Err without any panic site (E4 with D1/D2 discharge); (D3/D4) PollAI on the req/rep router: no "
     "overwrite of buffered_rep, buffered_req overwritten only while no replier is bound (K1), nothing handed to a sink while its slot still holds a "
-    "message (K9), poll_ready before start_send (K3). That a real replier echoes headers (C04) and payload equality on the wire are NOT decided.")
+    "message (K9), poll_ready before start_send (K3). That a real replier echoes headers (C04) and payload equality on the wire are NOT decided. Also K6: no router poll can go round for ever without consuming anything (a spinning router serves nobody).")
 ASSUMPTIONS = ["operation table of DESIGN §5", "StreamMap yields (key, item) with the key the stream was inserted under"]
 
 
@@ -138,7 +138,7 @@ def run(ctx):
     from . import c05
     c05.d2(ctx, F)
     c05.d3(ctx, F)
-    ex, sd, cfg = routers.report(ctx, F, "reqrep", "C02", lambda f: (f.kind in ("K1", "K3", "K9", "K13") and "buffered_err" not in f.key and "local:si" not in f.key and "slot-overwrite:server" not in f.key) or f.kind in ("K4", "K5", "K14"))
+    ex, sd, cfg = routers.report(ctx, F, "reqrep", "C02", lambda f: (f.kind in ("K1", "K3", "K9", "K13") and "buffered_err" not in f.key and "local:si" not in f.key and "slot-overwrite:server" not in f.key) or f.kind in ("K4", "K5", "K6", "K14"))
     ctx.floor("C02.pollai.persistent-states", len(ex.persistent), 8)
     ctx.ok("C02.pollai", "req/rep router explored exhaustively: %d persistent states, %d (block,state) nodes" % (len(ex.persistent), len(ex.it.nodes)), cfg.body.span)
     routing = ex.h.routing
